@@ -33,3 +33,4 @@ def run(ck):
     funcs.route_selection(ck, "C07.R8")
     fresh.no_hidden_state(ck, "C20.R8")                  # results depend on the documented state only (no caches / memos)
     funcs.functions_return_results(ck, "C15.R7")
+    funcs.kernels_forward_keywords(ck, "C15.R8")
